@@ -153,8 +153,9 @@ def main(argv=None):
             for s in range(nshards):
                 tasks.append((pid, p.name, s, nshards, 0, None, 0, tier, dict(known)))
         else:
-            per = max(1, int(math.ceil(n_total / nshards)))
-            k = min(nshards, n_total)
+            # more, smaller shards than processes: evens out the very unequal cost of generated trajectory cases
+            k = max(1, min(nshards * int(os.environ.get("VERIF_OVERSHARD", "4")), n_total // 25 or 1))
+            per = max(1, int(math.ceil(n_total / k)))
             for s in range(k):
                 tasks.append((pid, p.name, s, k, per, p.steps.get(tier), derive_seed(seed, pid, p.name, s), tier,
                               dict(known)))
